@@ -102,6 +102,11 @@ def order_insensitive_body(loop: ast.For) -> (bool, str):
                     return False, f"`{unparse(n)[:50]}` may have an order-dependent effect (not a known read-only call)"
             if isinstance(n, ast.Call) and isinstance(n.func, ast.Name) and n.func.id == "print":
                 return False, "prints in iteration order"
+            if isinstance(n, ast.Call) and isinstance(n.func, ast.Name) and n.func.id not in (
+                    "len", "str", "repr", "int", "float", "bool", "isinstance", "issubclass", "hasattr", "getattr", "type", "min", "max", "abs", "sum", "any", "all", "sorted", "tuple", "frozenset",
+                    "set", "list", "dict", "range", "enumerate", "zip", "id", "hash", "format", "round"):
+                # a call of a local / module function (e.g. a recursive placement helper) can do anything in that order
+                return False, f"`{unparse(n)[:50]}` calls a function whose effects happen in iteration order"
             if isinstance(n, ast.Assign):
                 for t in n.targets:
                     if isinstance(t, ast.Subscript):
@@ -165,6 +170,20 @@ def run(model, col, tier):
                     exc = next((v_ for (r_, q_, it_), v_ in SET_ITERATION_EXCEPTIONS.items() if r_ == rel and it_ == unparse(it) and q.split(".")[0] == q_.split(".")[0]), None)
                     if exc:
                         col.ok("R18.1", key + " (exception)", "triaged: " + exc)
+                        # the triage rests on a premise: candidates of equal score are *always* reported as ambiguous, so
+                        # their registration order never decides a call (= R10.2)
+                        if "ambiguity" in exc and not getattr(col, "_tie_premise_done", False):
+                            col._tie_premise_done = True
+                            from ..report import Collector as _C181
+                            from . import c10 as _c10_181
+
+                            sub181 = _C181("C10")
+                            _c10_181.run(model, sub181, "quick")
+                            for ob in sub181.obligations:
+                                if ob.rule == "R10.2" and "FindFunction" in ob.construct and ("tie" in ob.construct or "every path" in ob.construct):
+                                    ob.detail = "[R10.2, premise of the import-order exception] " + (ob.detail or "")
+                                    ob.rule = "R18.1"
+                                    col.obligations.append(ob)
                         continue
                     if isinstance(node, ast.SetComp):
                         col.ok("R18.1", key, "produces a set")
@@ -302,6 +321,27 @@ def run(model, col, tier):
                                 field_mut.append((sub.name, k.name + "." + m.name, node))
                             if k is ci and a in stored:
                                 field_mut.append((sub.name, k.name + "." + m.name, node))
+            # (d) the field escapes through an accessor (`return self.__f`) and a caller mutates what it gets
+            if receivers:
+                accessors = set()
+                for k in ci.mro:
+                    for m in k.methods.values():
+                        rets = [r for r in ast.walk(m) if isinstance(r, ast.Return) and r.value is not None]
+                        if len(rets) == 1 and isinstance(rets[0].value, ast.Attribute) and isinstance(rets[0].value.value, ast.Name) and rets[0].value.value.id == "self" \
+                                and mangle(k.name, rets[0].value.attr) in stored:
+                            accessors.add(m.name)
+                if accessors:
+                    for r2, f2 in model.files.items():
+                        if not r2.startswith("nsl/"):
+                            continue
+                        for f in ast.walk(f2.tree):
+                            if not isinstance(f, (ast.FunctionDef, ast.AsyncFunctionDef)):
+                                continue
+                            held = {t.id for s in ast.walk(f) if isinstance(s, ast.Assign) and isinstance(s.value, ast.Call) and last_attr(s.value) in accessors
+                                    for t in s.targets if isinstance(t, ast.Name)}
+                            for recv, node in mutations_in(f):
+                                if (isinstance(recv, ast.Call) and last_attr(recv) in accessors and not recv.args) or (isinstance(recv, ast.Name) and recv.id in held):
+                                    field_mut.append((sorted(s.name for s in receivers)[0], f"{r2}::{f.name} (through {sorted(accessors)[0]}())", node))
         if exc and not direct and not field_mut:
             col.ok("R18.2", key + " (exception)", "triaged: " + exc)
             continue
